@@ -65,7 +65,11 @@ func (e *Engine) taintBits(st *State, v Value, depth int) uint8 {
 		return bits
 	case IfaceV:
 		if x.Sym != nil {
-			return x.Sym.Taint
+			b := x.Sym.Taint
+			if x.Sym.Ref != nil {
+				b |= st.taintRef[x.Sym.Ref.String()]
+			}
+			return b
 		}
 		if x.Dyn != nil {
 			return e.taintBits(st, x.V, depth+1)
@@ -120,6 +124,12 @@ func (e *Engine) taintValue(st *State, v Value, bits uint8) Value {
 			ns := *x.Sym
 			ns.Taint |= bits
 			x.Sym = &ns
+			if ns.Ref != nil {
+				if st.taintRef == nil {
+					st.taintRef = map[string]uint8{}
+				}
+				st.taintRef[ns.Ref.String()] |= bits
+			}
 			return x
 		}
 		if x.Dyn != nil {
